@@ -68,6 +68,16 @@ func (n *LocalNode) stabilize() error {
 		succList = succList[1:]
 	}
 
+	if modified {
+		// entries past ourselves are our own list echoed back by our successors (the ring is
+		// shorter than the list); dropping them keeps departed nodes from circulating forever
+		for i, s := range succList {
+			if s != nil && s.ID() == n.ID() {
+				succList = succList[:i+1]
+				break
+			}
+		}
+	}
 	verifPoint("stab.read", n)
 	n.lastStabilized.Store(time.Now())
 
